@@ -105,7 +105,7 @@ func c01Families() []Family {
 		Requests: domReqs})
 	// 6 deny-override RBAC
 	eftRules := [][]string{{"alice", "data1", "read", "allow"}, {"admin", "data1", "read", "deny"}, {"bob", "data2", "write", "allow"}, {"admin", "data2", "write", "other"}, {"alice", "data1", "read", "deny"}}
-	for _, ek := range []struct{ n, e string }{{"deny-override", effDeny}, {"allow-and-deny", effAllowDen}, {"priority", effPriority}} {
+	for _, ek := range []struct{ n, e string }{{"deny-override", effDeny}, {"allow-and-deny", effAllowDen}, {"priority", effPriority}, {"allow-override-with-eft-column", effAllow}} {
 		fs = append(fs, Family{Name: "rbac-" + ek.n,
 			MS:    NewMSpec().AddR("r", "sub", "obj", "act").AddP("p", "sub", "obj", "act", "eft").AddG("g", 2).AddE("e", ek.e).AddM("m", "r", "p", rbacM),
 			Rules: map[string][][]string{"p": eftRules}, Links: map[string][][]string{"g": gRules[:3]}, Requests: strReqs(subs, objs, acts)})
